@@ -4,6 +4,7 @@ CONSTANTS
   MaxNodes = 2
   MaxDepth = 2
   MinNodes = 0
+  MaxFaults = 0
   MaxComps = 2
 INVARIANTS TypeOK WF MandatoryEdgesGoBack
 CHECK_DEADLOCK FALSE
